@@ -341,4 +341,13 @@ theorem C20_sweep_complete (c i : Nat) (l : List Ans) (h : NoLongGap c l) (j : N
         simp only [sweep, hn, if_false]
         exact this
 
+/-- **C20 / a recovered reservation is completed** (regenerated shape of `resumeAccount`): the `StateInitiated` clause
+falls through into the `StatePendingOpen` clause, and that clause calls `Auctioneer.InitAccount` unconditionally – also
+on recovery, where for a reservation-only key it is the only message that tells the auctioneer the located outpoint
+(without it no cooperative closure of the recovered account can be co-signed). -/
+theorem C20_recovery_completes_reservation_shape :
+    (Lifecycle.resume.lookup 0).map (·.contains "fallthrough") = some true ∧
+    (Lifecycle.resume.lookup 1).map (·.contains "InitAccount") = some true := by
+  decide
+
 end Pool.C20
